@@ -6,11 +6,13 @@
 void UW_H(void)
 {
     cJSON *a; cJSON *b; const char *s;
-    VF_INIT(); g_uw.calls = 0; g_cp.calls = 0;
+    VF_INIT(); g_uw.calls = 0; g_cp.calls = 0; g_ugoi.calls = 0;
 #if UW_KIND == 0      /* (cJSON*, const char*) -> cJSON*   */
     { cJSON *r = UW_FN(a, s); VF_COVER(r != NULL); VF_COVER(r == NULL); }
 #elif UW_KIND == 1    /* (cJSON*, cJSON*) -> cJSON* */
     { cJSON *r = UW_FN(a, b); VF_COVER(r != NULL); VF_COVER(r == NULL); }
+#elif UW_KIND == 4    /* get_object_item */
+    { cJSON_bool cs = nondet_bool(); cJSON *r = get_object_item(a, s, cs); VF_COVER(r != NULL && cs); VF_COVER(r == NULL && !cs); }
 #elif UW_KIND == 3    /* GeneratePatches */
     { cJSON *r = UW_FN(a, b); VF_COVER(r != NULL); VF_COVER(r == NULL && g_cp.calls == 1); VF_COVER(g_cp.calls == 0); }
 #else                 /* (cJSON*) -> void */
